@@ -89,8 +89,9 @@ def jobs(tier):
         B(lambda tw=tw: L.mk_uart_tx(tw))
         B(lambda tw=tw, k=k: L.UartRxInst(tw, ((100 + (k % 3) - 1) if tw <= 0x1000_0000 else 100, 100)))
     B(lambda: L.UartRxInst(0x0800_0000, noise=True), with_monitor=False)
-    for dw, al in ((8, False), (8, True), (16, True), (24, False), (32, False), (32, True)):
-        B(lambda dw=dw, al=al: L.SpiMasterInst(dw, al, divs=(2, 3, 4, 5, 7, 8, 16)))
+    for dw, al, div in ((8, False, 2), (8, True, 5), (16, True, 3), (24, False, 4), (32, False, 16), (32, True, 7)) + \
+            (() if quick else ((8, False, 3), (16, False, 100), (32, True, 2), (12, True, 6))):
+        B(lambda dw=dw, al=al, div=div: L.SpiMasterInst(dw, al, divs=(div,), tag="/div%d" % div))
     B(lambda: L.SpiSlaveInst(8))
     B(lambda: L.SpiSlaveInst(32))
     B(lambda: L.SpiSlaveInst(8, wellformed=False))
